@@ -2,6 +2,7 @@ import GV.Model.NoSync
 import GV.Spec.SyncSeq
 
 /-! nosync refines the sequential specification of sync (GV.Props.C13). -/
+set_option linter.unusedSimpArgs false
 namespace GV.Proofs.NoSyncRefine
 open GV.NoSync GV.Spec.SyncSeq
 
@@ -156,7 +157,6 @@ theorem step_refines (s : State) (t : Spec) (op : Op) (h : R s t) :
     refine ⟨(.ok .unit, { t with map := goDelete t.map k }), by simp [GV.Spec.SyncSeq.step], ?_, Or.inr ?_⟩
     · cases hm : s.map <;> simp [GV.NoSync.step, hm, Matches]
     · cases hm : s.map <;> simp [hm] at h7 <;> simp_all [GV.NoSync.step, hm, R, goDelete]
-      rw [← h7]; rfl
   | mapRange n =>
     by_cases hn : n < 0
     · refine ⟨(.ok (.pairs (sortPairs t.map)), t), by simp [GV.Spec.SyncSeq.step, hn], by simp [GV.NoSync.step, hn, h7, Matches], Or.inr ?_⟩
